@@ -229,6 +229,32 @@ Fixpoint move_loop (k : nat) (insf : heap -> id -> heap * result) (h : heap) (fr
             end
   end.
 
+(** DOMParentNode::insertBefore; [insf h0 kid] is the call getContainingNode()->insertBefore(kid, refChild) made by
+    the DocumentFragment loop (a virtual call, hence a parameter here; [ins] below ties the knot) *)
+Definition pins_body (insf : heap -> id -> heap * result) (cf : cfg) (h : heap) (this new : id) (ref : option id)
+  : heap * result :=
+  if n_ro (nd h this) then (h, RErr NO_MOD)
+  else if negb (oid_eqb (pub_odoc h new) (Some (n_odoc (nd h this)))) then (h, RErr WRONG_DOC)
+  else if (if fix_self cf then negb (tree_safe h new (Some this) (length h))        (* repaired: always, from this *)
+           else has_kids h new && negb (tree_safe h new (parent h this) (length h)))   (* as found *)
+       then (h, RErr HIERARCHY)
+  else if match ref with Some r => negb (oid_eqb (parent h r) (Some this)) | None => false end
+       then (h, RErr NOT_FOUND)
+  else if oid_eqb ref (Some new) then (h, RNode new)
+  else if ntype_eqb (n_ty (nd h new)) TFrag then
+    if forallb (kid_ok h this) (kids h new) then
+      let (h', r) := move_loop (S (length h)) insf h new in
+      if is_err r then (h', r) else (h', RNode new)
+    else (h, RErr HIERARCHY)
+  else if negb (kid_ok h this new) then (h, RErr HIERARCHY)
+  else
+    match parent h new with
+    | Some op =>            (* oldparent->removeChild(newChild), the virtual one; its exception propagates *)
+      let (h1, r1) := v_remove h op new in
+      if is_err r1 then (h1, r1) else (link_insert h1 this new ref, RNode new)
+    | None => (link_insert h this new ref, RNode new)
+    end.
+
 (** [ins] = the virtual insertBefore (DOMDocumentImpl::insertBefore for a Document, DOMParentNode::insertBefore
     for Element / DocumentFragment / EntityReference, DOMNodeImpl::insertBefore for the leaf types).
     [fuel] bounds the nesting DocumentFragment -> child (2 levels suffice). *)
@@ -236,38 +262,15 @@ Fixpoint ins (fuel : nat) (cf : cfg) (h : heap) (this new : id) (ref : option id
   match fuel with
   | O => (h, RErr E_INTERNAL)
   | S fuel' =>
-    let pins : heap * result :=
-      (* DOMParentNode::insertBefore *)
-      if n_ro (nd h this) then (h, RErr NO_MOD)
-      else if negb (oid_eqb (pub_odoc h new) (Some (n_odoc (nd h this)))) then (h, RErr WRONG_DOC)
-      else if (if fix_self cf then negb (tree_safe h new (Some this) (length h))        (* repaired: always, from this *)
-               else has_kids h new && negb (tree_safe h new (parent h this) (length h)))   (* as found *)
-           then (h, RErr HIERARCHY)
-      else if match ref with Some r => negb (oid_eqb (parent h r) (Some this)) | None => false end
-           then (h, RErr NOT_FOUND)
-      else if oid_eqb ref (Some new) then (h, RNode new)
-      else if ntype_eqb (n_ty (nd h new)) TFrag then
-        if forallb (kid_ok h this) (kids h new) then
-          let (h', r) := move_loop (S (length h)) (fun h0 kid => ins fuel' cf h0 this kid ref) h new in
-          if is_err r then (h', r) else (h', RNode new)
-        else (h, RErr HIERARCHY)
-      else if negb (kid_ok h this new) then (h, RErr HIERARCHY)
-      else
-        match parent h new with
-        | Some op =>            (* oldparent->removeChild(newChild), the virtual one; its exception propagates *)
-          let (h1, r1) := v_remove h op new in
-          if is_err r1 then (h1, r1) else (link_insert h1 this new ref, RNode new)
-        | None => (link_insert h this new ref, RNode new)
-        end in
     match n_ty (nd h this) with
     | TDoc =>
       (* DOMDocumentImpl::insertBefore: only one element child permitted *)
       if ntype_eqb (n_ty (nd h new)) TElem && (match n_docel (nd h this) with Some _ => true | None => false end)
       then (h, RErr HIERARCHY)
-      else let (h', r) := pins in
+      else let (h', r) := pins_body (fun h0 kid => ins fuel' cf h0 this kid ref) cf h this new ref in
            if is_err r then (h', r)
            else if ntype_eqb (n_ty (nd h' new)) TElem then (upd h' this (set_docel (Some new)), r) else (h', r)
-    | TElem | TFrag | TERef => pins
+    | TElem | TFrag | TERef => pins_body (fun h0 kid => ins fuel' cf h0 this kid ref) cf h this new ref
     | _ => (h, RErr HIERARCHY)        (* DOMNodeImpl::insertBefore *)
     end
   end.
@@ -415,49 +418,50 @@ Definition clone_shallow (cf : cfg) (h : heap) (n : id) : node :=
   | t => mkNode t (n_name x) (n_val x) [] doc None None None false copied_first false doc None
   end.
 
+Definition set_ro v (n : node) := mkNode (n_ty n) (n_name n) (n_val n) (n_attrs n) (n_owner n) (n_first n) (n_prev n) (n_next n) (n_owned n) (n_isfirst n) v (n_odoc n) (n_docel n).
+
 (** cloneChildren: for (mykid = other->getFirstChild(); mykid; mykid = mykid->getNextSibling())
-                      appendChild(mykid->cloneNode(true))            -- DOMParentNode::appendChild *)
+                      appendChild(mykid->cloneNode(true))            -- DOMParentNode::appendChild;
+    [clonef h m] is the virtual call mykid->cloneNode(true) *)
+Fixpoint clone_kids (k : nat) (clonef : heap -> id -> heap * result) (cf : cfg) (h : heap) (c : id) (kid : option id)
+  : heap * result :=
+  match k with
+  | O => (h, RErr E_INTERNAL)
+  | S k' =>
+    match kid with
+    | None => (h, ROk)
+    | Some m =>
+      let (h2, r2) := clonef h m in
+      match r2 with
+      | RNode mc =>
+        let (h3, r3) := ins ins_fuel cf h2 c mc None in
+        if is_err r3 then (h3, r3) else clone_kids k' clonef cf h3 c (n_next (nd h3 m))
+      | _ => (h2, r2)
+      end
+    end
+  end.
+
 Fixpoint clone (fuel : nat) (cf : cfg) (h : heap) (n : id) (deep : bool) : heap * result :=
   match fuel with
   | O => (h, RErr E_INTERNAL)
   | S f =>
+    if ntype_eqb (n_ty (nd h n)) TDoc then (h, RSkip)   (* DOMDocumentImpl::cloneNode builds a new document: not modelled *)
+    else
     let (h1, c) := alloc h (clone_shallow cf h n) in
     let t := n_ty (nd h n) in
     if deep && negb (is_leaf t) then
       (* an EntityReference clone is made read-only after its children were cloned: setReadOnly(true,true) *)
-      let h1 := match t with TERef => upd h1 c (fun x => mkNode (n_ty x) (n_name x) (n_val x) (n_attrs x) (n_owner x)
-                                   (n_first x) (n_prev x) (n_next x) (n_owned x) (n_isfirst x) false (n_odoc x) (n_docel x))
-                           | _ => h1 end in
-      let fix kidloop (k : nat) (h : heap) (kid : option id) : heap * result :=
-        match k with
-        | O => (h, RErr E_INTERNAL)
-        | S k' =>
-          match kid with
-          | None => (h, ROk)
-          | Some m =>
-            let (h2, r2) := clone f cf h m true in
-            match r2 with
-            | RNode mc =>
-              let (h3, r3) := ins ins_fuel cf h2 c mc None in
-              if is_err r3 then (h3, r3) else kidloop k' h3 (n_next (nd h3 m))
-            | _ => (h2, r2)
-            end
-          end
-        end in
-      let (h4, r4) := kidloop (S (length h)) h1 (n_first (nd h n)) in
+      let h1 := match t with TERef => upd h1 c (set_ro false) | _ => h1 end in
+      let (h4, r4) := clone_kids (S (length h)) (fun h0 m => clone f cf h0 m true) cf h1 c (n_first (nd h n)) in
       if is_err r4 then (h4, r4)
       else match t with
-           | TERef => (upd h4 c (fun x => mkNode (n_ty x) (n_name x) (n_val x) (n_attrs x) (n_owner x)
-                                   (n_first x) (n_prev x) (n_next x) (n_owned x) (n_isfirst x) true (n_odoc x) (n_docel x)), RNode c)
+           | TERef => (upd h4 c (set_ro true), RNode c)
            | _ => (h4, RNode c)
            end
     else (h1, RNode c)
   end.
 Definition clone_node (cf : cfg) (h : heap) (n : id) (deep : bool) : heap * result :=
-  match n_ty (nd h n) with
-  | TDoc => (h, RSkip)                 (* DOMDocumentImpl::cloneNode builds a new document: not modelled *)
-  | _ => clone (S (length h)) cf h n deep
-  end.
+  clone (S (length h)) cf h n deep.
 
 (** ---------------------------------------------------------------- attributes (DOMAttrMapImpl, by name):
     the sorted vector operations attr_set / attr_remove / attr_get are in Ops13.v *)
